@@ -2,6 +2,7 @@ import WpModel.Drive.Loop
 import WpModel.Drive.Paginate
 import WpModel.Drive.PaginateOof
 import WpModel.Drive.PaginateFoot
+import WpModel.Drive.PaginateCol
 import WpModel.Drive.Total
 
-def main : IO Unit := Wp.Drive.runDriver [Wp.Drive.Paginate.handle, Wp.Drive.PaginateOof.handle, Wp.Drive.PaginateFoot.handle, Wp.Drive.Total.handle]
+def main : IO Unit := Wp.Drive.runDriver [Wp.Drive.Paginate.handle, Wp.Drive.PaginateOof.handle, Wp.Drive.PaginateFoot.handle, Wp.Drive.PaginateCol.handle, Wp.Drive.Total.handle]
